@@ -16,6 +16,7 @@ import (
 	"flag"
 	"fmt"
 	"io"
+	"log/slog"
 	"math/rand"
 	"os"
 	"path/filepath"
@@ -721,6 +722,7 @@ func run(args []string) error {
 	if *replay != "" {
 		return replayCases(*replay, *out)
 	}
+	slog.SetDefault(QuietLogger()) // a Replica without a DB logs through the default logger
 	r := NewRand(*seed)
 	cw, err := NewCaseWriter(filepath.Join(*out, "cases.txt"))
 	if err != nil {
